@@ -92,8 +92,8 @@ def gen(seed: int, i: int, tier: str) -> dict:
         # fault injection on release writes while sends race with the flush (1 = fails at once, 2 = fails after
         # its suspension); the final wakes run after the tape is exhausted, i.e. fault-free
         tapes["w.fail.set"] = [rng.choice([0, 0, 1, 2, 2]) for _ in range(rng.randint(1, 5))]
-    return {"cfg": {"pin": proto}, "nodes": nodes, "children": children, "pre": pre, "wakes": wakes,
-            "actors": actors, "tapes": tapes}
+    return {"cfg": {"pin": proto, "reenter": rng.random() < 0.15}, "nodes": nodes, "children": children, "pre": pre,
+            "wakes": wakes, "actors": actors, "tapes": tapes}
 
 
 def valid(scn) -> bool:
@@ -187,6 +187,16 @@ def _run(scn, w: GwWorld, res: RunResult):
     for t in tasks:
         if t.done() and not t.cancelled() and t.exception() is not None:
             raise t.exception()
+    if scn["cfg"].get("reenter"):
+        # the application leaves and re-enters the gateway context (reconnect): nothing parked may be forgotten
+        lt.cancel()
+        w.loop.run_until_idle(0)
+        err = w.reenter()
+        res.probes["reenter_before_final_wake"] += 1
+        if err:
+            res.violate(PROP, "no-unexpected-exception", f"reenter-raised:{err}", "")
+        lt = w.loop.create_task(listener())
+        w.loop.run_until_idle(0)
     # the node(s) wake once more, sequentially, with no latency left on the tape
     final_mark = w.log("harness", "final-wakes")
     w.tapes.get("w.fail.set").items = w.tapes.get("w.fail.set").items[: w.tapes.get("w.fail.set").pos]  # faults stop
